@@ -277,6 +277,9 @@ func nameFieldIndex(t reflect.Type) int {
 	return -1
 }
 
+// c05Spell fixes the source spelling of some string values for one case (value -> literal text).
+var c05Spell map[string]string
+
 // writeBlock writes the value as BCL text; blockType is the type identifier to use.
 func writeBlock(r *rand.Rand, b *strings.Builder, v reflect.Value, blockType string, indent string, keyCount *int) {
 	t := v.Type()
@@ -332,7 +335,11 @@ func writeBlock(r *rand.Rand, b *strings.Builder, v reflect.Value, blockType str
 		case reflect.Float64:
 			fmt.Fprintf(b, "%s  %s = %s\n", indent, key, floatText(fv.Float()))
 		case reflect.String:
-			fmt.Fprintf(b, "%s  %s = %s\n", indent, key, lang.SpellStr(r, fv.String(), r.Intn(2) == 0).Text)
+			text, fixed := c05Spell[fv.String()]
+			if !fixed {
+				text = lang.SpellStr(r, fv.String(), r.Intn(2) == 0).Text
+			}
+			fmt.Fprintf(b, "%s  %s = %s\n", indent, key, text)
 		case reflect.Bool:
 			fmt.Fprintf(b, "%s  %s = %v\n", indent, key, fv.Bool())
 		}
@@ -423,6 +430,7 @@ func c05Case(c *core.Ctx, i int64, r *rand.Rand) {
 		}
 	}
 	vals := make([]reflect.Value, nblocks)
+	c05Spell = nil
 	var b strings.Builder
 	keys := 0
 	// other blocks and variables around
@@ -430,6 +438,33 @@ func c05Case(c *core.Ctx, i int64, r *rand.Rand) {
 	for k := range vals {
 		vals[k] = reflect.New(t).Elem()
 		fillValue(r, vals[k])
+		if r.Intn(6) == 0 {
+			// one string field's value is the source spelling (quotes, backslashes and all) of another one's
+			var sf []reflect.Value
+			for fi := 0; fi < t.NumField(); fi++ {
+				if f := vals[k].Field(fi); f.Kind() == reflect.String && fi != nameFieldIndex(t) {
+					sf = append(sf, f)
+				}
+			}
+			if len(sf) >= 2 {
+				a, bq := sf[0], sf[1]
+				if r.Intn(2) == 0 {
+					a, bq = bq, a
+				}
+				if a.String() == "" {
+					a.SetString([]string{"a\tb", "q\"uote", "back\\slash", "é\n"}[r.Intn(4)])
+				}
+				lit := lang.SpellStr(r, a.String(), true).Text
+				if c05Spell == nil {
+					c05Spell = map[string]string{}
+				}
+				if _, dup := c05Spell[a.String()]; !dup && a.String() != lit {
+					c05Spell[a.String()] = lit
+					bq.SetString(lit)
+					c.Count("strings_holding_the_spelling_of_another_literal", 1)
+				}
+			}
+		}
 		var one strings.Builder
 		writeBlock(r, &one, vals[k], bt, "", &keys)
 		if one.Len() == 0 {
@@ -530,7 +565,7 @@ func init() {
 		Level: "exploration",
 		Rule: "round-trip monitor: the harness owns the writer (Go value -> BCL text) and the matching rule (tag first, else equal ignoring case and underscores; type name matched the same way). Struct types are built with reflect.StructOf (1-12 fields of int/float64/string/bool, nested anonymous structs to depth 4, tags on a random subset, a Name field at any index or absent) or taken from a zoo of named types (named nested type included); " +
 			"values: zero, extremes (MinInt64, +-MaxFloat64, denormals, -0.0), random finite floats, strings needing every escape form; key spellings: snake, joined, upper, Go name, extra/leading/trailing underscores, lower camel; field order shuffled; struct binding with every selector and slice binding (all/first/last) into a slice pre-filled with junk. Required: nil error and bit-exact deep equality. " +
-			"distinct = hash(text, type); non-trivial = at least one field crossed the reflection layer Also: struct chains nested 1..16 deep; struct types holding two field names that collide under a common 32-bit string hash (FNV, CRC32, Adler, djb2, sdbm, 31/131 multiplicative, Jenkins, Murmur3, byte sum/xor: internal/lang/collide_table.go); tags equal to a sibling field's Go name (the tag wins); the source buffer is overwritten right after Unmarshal returns.",
+			"distinct = hash(text, type); non-trivial = at least one field crossed the reflection layer Also: struct chains nested 1..16 deep; struct types holding two field names that collide under a common 32-bit string hash (FNV, CRC32, Adler, djb2, sdbm, 31/131 multiplicative, Jenkins, Murmur3, byte sum/xor: internal/lang/collide_table.go); tags equal to a sibling field's Go name (the tag wins); string values equal to the source spelling of another string literal of the same program; U+FFFD, U+FEFF and U+2028 written raw inside literals; the source buffer is overwritten right after Unmarshal returns.",
 		Assumptions:   []string{"field-name sets that are ambiguous under the rule (two fields equal after folding, a tag equal to another field's folded name) are not generated"},
 		MinNontrivial: 1000,
 		Run: func(c *core.Ctx) {
